@@ -193,6 +193,63 @@ theorem dispatch_spec (pre : List Op) (e : Nat) (st : Bool) (post : List Op) :
   obtain ⟨s, outs, o, h1, h2, h3⟩ := output_at pre (.dispatch e st) post
   exact ⟨s, outs, h1, by rw [h2, h3]⟩
 
+/-! ### Event objects of user classes (the public stop protocol)
+
+`Event` is a base class applications derive from; a derived class may implement
+`stop_propagation()` / `is_propagation_stopped()` itself.  The dispatcher must judge "stopped"
+by that protocol alone. -/
+
+/-- (b') An event of ANY class that implements the protocol faithfully (stopped after
+`stop_propagation()`, not changed by whatever else listeners do to the event) is treated exactly
+like the stock event whose flag is the class's answer on entry: `_do_dispatch` calls the same
+listeners and the event answers the same afterwards - wherever the class keeps its state
+(forwarded to a wrapped event, another attribute, ...).  Hence `dispatch_spec` holds for
+dispatches with such events. -/
+theorem custom_event_faithful {σ : Type} (P : EvProto σ)
+    (hstop : ∀ s, P.isStopped (P.stop s) = true)
+    (htouch : ∀ s, P.isStopped (P.touch s) = P.isStopped s) (ls : List Listener) (s : σ) :
+    (doDispatchEv P ls s).1 = (doDispatch ls (P.isStopped s)).1 ∧
+      P.isStopped (doDispatchEv P ls s).2 = (doDispatch ls (P.isStopped s)).2 :=
+  doDispatchEv_faithful P hstop htouch ls s
+
+/-- the stock event is the instance `plainEvent` -/
+theorem plain_event_is_doDispatch (ls : List Listener) (st : Bool) :
+    doDispatchEv plainEvent ls st = doDispatch ls st := by
+  have h := doDispatchEv_faithful plainEvent (fun _ => rfl) (fun _ => rfl) ls st
+  exact Prod.ext h.1 h.2
+
+/-- (b'') An event class that is NOT a flag: a fresh event that reports itself stopped once `n`
+listeners have seen it (or one of them stopped it).  For every history, its dispatch calls
+exactly the first `n` of the listeners a stock event would reach, and afterwards the event
+answers "stopped" iff a called listener stopped it or `n` listeners were called. -/
+theorem dispatch_budget_spec (pre : List Op) (e : Nat) (n : Nat) (post : List Op) :
+    ∃ s outs, run init (pre ++ .dispatchN e n :: post) = .ok (s, outs) ∧
+      outs[pre.length]? = some (.called (((callSeq (logOf pre) e false).take n).map (fun r => r.l))
+        (((callSeq (logOf pre) e false).take n).any (fun r => r.l.stops) ||
+          decide (n ≤ ((callSeq (logOf pre) e false).take n).length))) := by
+  obtain ⟨s, outs, o, h1, h2, h3⟩ := output_at pre (.dispatchN e n) post
+  exact ⟨s, outs, h1, by rw [h2, h3]; rfl⟩
+
+/-- with a budget of 0 the event arrives stopped: nobody is called -/
+theorem dispatch_budget_zero (pre : List Op) (e : Nat) (post : List Op) :
+    ∃ s outs, run init (pre ++ .dispatchN e 0 :: post) = .ok (s, outs) ∧
+      outs[pre.length]? = some (.called [] true) := by
+  obtain ⟨s, outs, h1, h2⟩ := dispatch_budget_spec pre e 0 post
+  exact ⟨s, outs, h1, by simpa using h2⟩
+
+/-- with a budget no listener sequence exhausts, the budget event is the stock event -/
+theorem dispatch_budget_large (pre : List Op) (e : Nat) (n : Nat) (post : List Op)
+    (hn : (callSeq (logOf pre) e false).length < n) :
+    ∃ s outs, run init (pre ++ .dispatchN e n :: post) = .ok (s, outs) ∧
+      outs[pre.length]? = some (.called ((callSeq (logOf pre) e false).map (fun r => r.l))
+        ((callSeq (logOf pre) e false).any (fun r => r.l.stops))) := by
+  obtain ⟨s, outs, h1, h2⟩ := dispatch_budget_spec pre e n post
+  refine ⟨s, outs, h1, ?_⟩
+  rw [h2, List.take_of_length_le (Nat.le_of_lt hn)]
+  have : decide (n ≤ (callSeq (logOf pre) e false).length) = false := by
+    simp only [decide_eq_false_iff_not]; omega
+  rw [this, Bool.or_false]
+
 theorem mem_takeThrough_or {α : Type} (p : α → Bool) {x : α} : ∀ {l : List α}, x ∈ l →
     x ∈ takeThrough p l ∨ ∃ y ∈ takeThrough p l, p y = true
   | [], h => by simp at h
@@ -320,6 +377,7 @@ theorem agrees_iff_specOut (log : List Reg) (op : Op) (o : Out) (h : determined 
   cases op with
   | add e l p => rfl
   | dispatch e st => rfl
+  | dispatchN e n => rfl
   | hasListeners eo => cases eo <;> rfl
   | getListeners eo =>
     cases eo with
@@ -424,6 +482,23 @@ example : ∃ s outs, run init [.add 0 la 0, .dispatch 0 false, .add 0 lc 7, .di
       = [⟨0, 7, lc⟩, ⟨0, 0, la⟩] := by decide
   rw [e] at h
   exact h
+
+/-- a user event that reports itself stopped after two calls: of `lc` (7), `la` (0), `ld` (-1)
+the first two are called and the event then answers "stopped" -/
+example : ∃ s outs, run init [.add 0 la 0, .add 0 ld (-1), .add 0 lc 7, .dispatchN 0 2] = .ok (s, outs) ∧
+    outs[3]? = some (.called [lc, la] true) := by
+  have h := dispatch_budget_spec [.add 0 la 0, .add 0 ld (-1), .add 0 lc 7] 0 2 []
+  have e : callSeq (logOf [.add 0 la 0, .add 0 ld (-1), .add 0 lc 7]) 0 false
+      = [⟨0, 7, lc⟩, ⟨0, 0, la⟩, ⟨0, -1, ld⟩] := by decide
+  rw [e] at h
+  exact h
+
+/-- an event class keeping its state elsewhere (a pair: the wrapped event's flag, the unused
+base flag) satisfies the hypotheses of `custom_event_faithful` -/
+example : ∀ ls (s : Bool × Bool),
+    (doDispatchEv { isStopped := fun s => s.1, stop := fun s => (true, s.2), touch := id } ls s).1
+      = (doDispatch ls s.1).1 :=
+  fun ls s => (custom_event_faithful _ (fun _ => rfl) (fun _ => rfl) ls s).1
 
 /-- the hypotheses of `query_get_priority_unique` are satisfiable -/
 example : ∃ s outs, run init [.add 0 la 3, .add 1 la 4, .getPriority 0 la] = .ok (s, outs) ∧
